@@ -4,7 +4,7 @@ CONSTANTS
   Starts <- StartsAll
   Certs <- BoolBoth
   Tmpls <- TmplBoth
-  Drc0 <- DrcAll
+  Drc0 <- DrcNamed
   EnvKinds <- EnvAll
   Interf <- InterfDeps
   MaxEdits = 2
